@@ -74,10 +74,11 @@ def h_frame(c, n, gap):
     sym = c.mode == "sym"
     cols = {k: reals(c, k, n) for k in ("x", "y", "r", "w")}
     kcol = list(range(n))
+    big = [2**53 + 1 + 2 * i for i in range(n)]  # 64-bit keys: not representable as float64
     mk = (lambda v: pd.Series(v, dtype=object)) if sym else (lambda v: pd.Series([float(q) for q in v], dtype=np.float64))
     df = pd.DataFrame({"id": ids, "type": [(3 * i + 1) % 5 for i in range(n)], "x": mk(cols["x"]), "y": mk(cols["y"]), "z": [float(i) for i in range(n)],
-                       "r": mk(cols["r"]), "pid": pids, "w": mk(cols["w"]), "k": kcol})
-    cols_in = dict(cols, type=list(df["type"]), z=list(df["z"]))
+                       "r": mk(cols["r"]), "pid": pids, "w": mk(cols["w"]), "k": kcol, "key": np.array(big, dtype=np.int64)})
+    cols_in = dict(cols, type=list(df["type"]), z=list(df["z"]), key=[int(v) for v in df["key"]])
     inplace = c.pick("inplace", [False, True])
     if inplace:
         out = df.copy()
@@ -87,13 +88,13 @@ def h_frame(c, n, gap):
         c.prove("frame.input_untouched", list(df["id"]) == ids and list(df["pid"]) == pids and list(df["k"]) == kcol)
     rows = [int(v) for v in out["k"]]
     c.prove("frame.ids_are_positions", [int(v) for v in out["id"]] == list(range(n)))
-    _check_relabelling(c, "frame", n, par, list(out["pid"]), rows, cols_in, {k: list(out[k]) for k in cols_in})
+    _check_relabelling(c, "frame", n, par, list(out["pid"]), rows, cols_in, {k: ([int(v) for v in out[k]] if k == "key" else list(out[k])) for k in cols_in})
     c.prove("frame.is_sorted", bool(is_sorted((out["id"].to_numpy(), out["pid"].to_numpy()))))
     # sorting the sorted result: still a pure relabelling of the result (sibling order may change)
     out2 = sort_nodes(out)
     par1 = [int(p) for p in out["pid"]]
     rows2 = [rows.index(int(v)) for v in out2["k"]]
-    _check_relabelling(c, "frame.again", n, par1, list(out2["pid"]), rows2, {k: list(out[k]) for k in cols_in}, {k: list(out2[k]) for k in cols_in})
+    _check_relabelling(c, "frame.again", n, par1, list(out2["pid"]), rows2, {k: ([int(v) for v in out[k]] if k == "key" else list(out[k])) for k in cols_in}, {k: ([int(v) for v in out2[k]] if k == "key" else list(out2[k])) for k in cols_in})
     c.output("rows", rows)
 
 
